@@ -502,7 +502,7 @@ func C03() *engine.Check {
 	return &engine.Check{
 		Property: "C03",
 		Level:    "model_checking",
-		Subs:     []*engine.Sub{c03Sub("policy-aggregation", "sound"), c03HookSub("args-hook", "sound"), c03SeqSub("same-token-sequences", "sound"), c03SharedSub("policies-sharing-one-array", "sound"), c03DenySub("sound"), c03ValuesSub("sound"), c03TwinsSub(), c03ManySelSub(), longChainSub("C03"), c03ConcSub(), concRaceSub("C03")},
+		Subs:     []*engine.Sub{c03Sub("policy-aggregation", "sound"), c03HookSub("args-hook", "sound"), c03SeqSub("same-token-sequences", "sound"), c03SharedSub("policies-sharing-one-array", "sound"), c03DenySub("sound"), c03ValuesSub("sound"), c03TwinsSub(), c03ManySelSub(), c03DeepSub(), longChainSub("C03"), c03ConcSub(), concRaceSub("C03")},
 		Assumptions: []string{
 			"statement semantics are taken from the real single-statement Policy.Match (C11 decides those); C03 decides aggregation over links and statements",
 			"principals aligned, commands equal, no time bounds: only the policy stage can deny",
